@@ -322,6 +322,10 @@ def gen(tier, seed):
         add("bc_switch_%d%d%d" % (w, h, d), "c15-boundary-switch", "bc_switch(%d, %d, %d, bc1, bc2, i)" % (w, h, d), ["pre: 0 <= bc1 <= 7 and 0 <= bc2 <= 7 and 0 <= i < %d" % (w * h * d)],
             "the neighbour query and the pairwise test follow the CURRENT boundary setting: after a query under one setting the grid (or a copy of it) is switched to another with set_boundary_conditions and must answer like a grid built with the new setting (%dx%dx%d, all 8 x 8 settings, every first-queried cell)" % (w, h, d),
             "bc1: int, bc2: int, i: int", viol="after the boundary conditions of a grid are changed, a neighbour query still answers for the old setting")
+    add("space_after_edit", "c15-space-after-edit", "space_after_edit(kind, how)", ["pre: 0 <= kind <= 1 and 0 <= how <= 4"],
+        "a space that has already answered every geometry query and is then EDITED (grid: cell volume, environment map, units system, boundary conditions, two at once; graph: a node's volume / environment, an edge's surface / distance, "
+        "several of them, the units system) answers every query (volumes, environments, neighbours, pairwise test, edges) like a space built afresh with the edited content", "kind: int, how: int",
+        viol="a space edited after its first use still answers from data derived before the edit")
     add("abi_boundary", "c15-abi-boundary", "abi_boundary(w, h, d, bc)", ["pre: 1 <= w <= 2 and 1 <= h <= 2 and 1 <= d <= 2 and 0 <= bc <= 7"],
         "LibRDEngine hands the native engine the grid's sizes in the order (w, h, d) and each axis' OWN boundary condition (all 8 combinations, sizes 1..2 per axis, deterministic and stochastic engines)",
         "w: int, h: int, d: int, bc: int", viol="the boundary condition or size of one axis reaches the native engine under another axis")
